@@ -50,6 +50,10 @@ pub struct PipeState {
     pub unread: usize,
     pub reading: bool,
     pub out_capacity: usize,
+    /// where back-pressure bites when the client does not read: false = `poll_ready` (the frame is
+    /// not accepted yet), true = `poll_flush` (like a websocket sink over TCP: the frame is already
+    /// in the sink's write buffer when the flush stalls)
+    pub stall_at_flush: bool,
     pub out_waker: Option<Waker>,
     pub flushes: u64,
     /// fail the n-th `start_send` from now (0 = next)
@@ -125,6 +129,9 @@ impl ClientEnd {
             w.wake();
         }
     }
+    pub fn set_stall_at_flush(&self, on: bool) {
+        self.st.lock().unwrap().stall_at_flush = on;
+    }
     pub fn set_reading(&self, reading: bool) {
         let mut g = self.st.lock().unwrap();
         g.reading = reading;
@@ -197,7 +204,8 @@ impl Sink<Bytes> for SimFramed {
 
     fn poll_ready(self: Pin<&mut Self>, cx: &mut Context<'_>) -> Poll<Result<(), AnyError>> {
         let mut g = self.st.lock().unwrap();
-        if !g.reading && g.unread >= g.out_capacity {
+        let limit = if g.stall_at_flush { g.out_capacity * 4 } else { g.out_capacity };
+        if !g.reading && g.unread >= limit {
             g.out_waker = Some(cx.waker().clone());
             return Poll::Pending;
         }
@@ -230,8 +238,13 @@ impl Sink<Bytes> for SimFramed {
         Ok(())
     }
 
-    fn poll_flush(self: Pin<&mut Self>, _cx: &mut Context<'_>) -> Poll<Result<(), AnyError>> {
-        self.st.lock().unwrap().flushes += 1;
+    fn poll_flush(self: Pin<&mut Self>, cx: &mut Context<'_>) -> Poll<Result<(), AnyError>> {
+        let mut g = self.st.lock().unwrap();
+        g.flushes += 1;
+        if g.stall_at_flush && !g.reading && g.unread >= g.out_capacity {
+            g.out_waker = Some(cx.waker().clone());
+            return Poll::Pending;
+        }
         Poll::Ready(Ok(()))
     }
 
